@@ -66,6 +66,10 @@ type Proj struct {
 	Flag string `json:"flag,omitempty"`
 	// Broken: packages whose BUILD.dawn currently ends in a syntax error (a half-finished edit)
 	Broken map[string]bool `json:"broken,omitempty"`
+	// Links: symbolic links inside source directories: path of the link (a direct child of a source directory) → the
+	// root-relative path of the file it points to (a plain file of Files outside every source directory). A directory
+	// sum, and a body, see such an entry as a file with the referent's content.
+	Links map[string]string `json:"links,omitempty"`
 }
 
 // flagArgs: LoadOptions.Args of every load of a history on this project
@@ -79,6 +83,12 @@ func (p *Proj) flagArgs() []string {
 func (p *Proj) clone() *Proj {
 	q := &Proj{Pkgs: append([]string{}, p.Pkgs...), Globals: map[string]map[string]int{}, Noise: map[string]int{}, Blank: map[string]int{},
 		HelperK: p.HelperK, HelperV: p.HelperV, HelperNoise: p.HelperNoise, Files: map[string]string{}, Dirs: append([]string{}, p.Dirs...), Flag: p.Flag}
+	if p.Links != nil {
+		q.Links = map[string]string{}
+		for k, v := range p.Links {
+			q.Links[k] = v
+		}
+	}
 	if p.Broken != nil {
 		q.Broken = map[string]bool{}
 		for k, v := range p.Broken {
@@ -406,7 +416,7 @@ func (p *Proj) renderBuild(pkg string) string {
 	}
 	sort.Strings(gs)
 	for _, g := range gs {
-		if g == "LA" {
+		if g == "LA" || g == "LATE" {
 			continue
 		}
 		fmt.Fprintf(&sb, "%s = %s\n", g, p.lit(globalKey(pkg, g), p.Globals[pkg][g]))
@@ -474,6 +484,11 @@ func (p *Proj) renderBuild(pkg string) string {
 			fmt.Fprintf(&sb, "@target(%s)\ndef %s_fn(%s):\n%s%s\n%s%s\n\n", kw, t.Name, params, ind, doc, ind, body)
 		}
 	}
+	if _, ok := p.Globals[pkg]["LATE"]; ok {
+		// a global assigned BELOW the targets that refer to it (a forward reference: helpers and constants at the end of
+		// a build file): set by the time the file has been executed, not yet while target() runs
+		fmt.Fprintf(&sb, "LATE = %s\n", p.lit(globalKey(pkg, "LATE"), p.Globals[pkg]["LATE"]))
+	}
 	if p.Broken[pkg] {
 		sb.WriteString("\ndef half_written(:\n")
 	}
@@ -522,7 +537,26 @@ func (p *Proj) writeAll(root string) error {
 			return err
 		}
 	}
+	for l, ref := range p.Links {
+		if err := makeLink(root, l, ref); err != nil {
+			return err
+		}
+	}
 	return nil
+}
+
+// makeLink (re)creates the symbolic link l → ref, relative, so that a copy of the tree keeps its meaning
+func makeLink(root, l, ref string) error {
+	lp := fsPath(root, l)
+	target, err := filepath.Rel(filepath.Dir(lp), fsPath(root, ref))
+	if err != nil {
+		return err
+	}
+	os.Remove(lp)
+	if err := os.MkdirAll(filepath.Dir(lp), 0o755); err != nil {
+		return err
+	}
+	return os.Symlink(target, lp)
 }
 
 // ---------------------------------------------------------------- edits
@@ -542,7 +576,7 @@ type Edit struct {
 
 // classes of edits that are not changes to any input (C02)
 var noopEdit = map[string]bool{"touch": true, "samecontent": true, "comment": true, "whitespace": true, "doc": true, "helpernoise": true,
-	"junktemp": true, "blockdir": true, "unblockdir": true}
+	"junktemp": true, "junkwork": true, "blockdir": true, "unblockdir": true}
 
 // apply performs the edit on the abstract project and on the tree under root ("" = abstract only).
 func (e *Edit) apply(p *Proj, root string) error {
@@ -569,6 +603,16 @@ func (e *Edit) apply(p *Proj, root string) error {
 		if root != "" {
 			t := time.Now().Add(time.Duration(e.Val+1) * time.Hour)
 			os.Chtimes(abs(e.Path), t, t)
+		}
+	case "retarget": // point a symbolic link inside a source directory at another file
+		if p.Links == nil {
+			p.Links = map[string]string{}
+		}
+		p.Links[e.Path] = e.To
+		if root != "" {
+			if err := makeLink(root, e.Path, e.To); err != nil {
+				return err
+			}
 		}
 	case "delete": // a source file (or a file inside a source directory)
 		delete(p.Files, e.Path)
@@ -613,6 +657,17 @@ func (e *Edit) apply(p *Proj, root string) error {
 	case "helpernoise":
 		p.HelperNoise++
 		rebuild = true
+	case "junkwork": // a stray file and a stray directory directly under .dawn/build
+		if root != "" {
+			work := filepath.Join(root, ".dawn", "build")
+			if err := os.MkdirAll(filepath.Join(work, "stray-"+e.Name+".d", "nested"), 0o755); err != nil {
+				return err
+			}
+			os.WriteFile(filepath.Join(work, "stray-"+e.Name+".d", "nested", "x"), []byte("junk"), 0o644)
+			if err := os.WriteFile(filepath.Join(work, "stray-"+e.Name), []byte("junk"), 0o644); err != nil {
+				return err
+			}
+		}
 	case "junktemp": // stray files and directories in .dawn/build/temp (Val entries)
 		if root != "" {
 			tmp := filepath.Join(root, ".dawn", "build", "temp")
@@ -815,7 +870,10 @@ var namePool = []string{"a.txt", "b.txt", "c.txt", "d.txt", "e.txt", "f.txt", "s
 	// unusual names: space, percent signs (also one that looks like an escaped slash), hash, quotes, leading dash, trailing
 	// dot, valid non-ASCII, and names that are NOT valid UTF-8 (0xe9, 0xff, a lone continuation byte)
 	"sp ace.txt", "%.txt", "%2F.txt", "#h.txt", "q\"q.txt", "q'q.txt", "-d.txt", "dot.", "é.txt", "at@x.txt", "semi;x.txt",
-	"caf" + rawByte(0xe9) + ".txt", rawByte(0xff) + ".txt", "c" + rawByte(0x80) + ".txt"}
+	"caf" + rawByte(0xe9) + ".txt", rawByte(0xff) + ".txt", "c" + rawByte(0x80) + ".txt",
+	// names that END in an invalid byte, and one that consists of nothing else
+	"caf" + rawByte(0xe9), rawByte(0xff),
+	"lnk"}
 
 var nameRanks = func() map[string]int {
 	sorted := append([]string{}, namePool...)
@@ -878,6 +936,13 @@ func (p *Proj) dirListing(n *numbering, dir string) string {
 			}
 		} else {
 			es = append(es, ent{rest, n.content(c)})
+		}
+	}
+	for l, ref := range p.Links { // a link to a file is a file entry with the referent's content
+		if strings.HasPrefix(l, dir+"/") && !strings.Contains(l[len(dir)+1:], "/") {
+			if c, ok := p.Files[ref]; ok {
+				es = append(es, ent{l[len(dir)+1:], n.content(c)})
+			}
 		}
 	}
 	for _, d := range p.Dirs { // empty sub-directories
